@@ -11,11 +11,7 @@ FILES = "paths_of(finder.code_files@)"
 
 
 def config_types(u):
-    def de_serde(t):
-        t = re.sub(r"^\s*#\[serde\([^\]]*\)\]\s*\n", "", t, flags=re.M)
-        t = re.sub(r"^\s*#\[allow\(dead_code\)\]\s*\n", "", t, flags=re.M)
-        t = re.sub(r"#\[derive\([^\]]*\)\]", "", t)
-        return common.wrap(common.pub_fields(common.strip_doc(t)))
+    de_serde = common.de_serde
     u.real_item(CTX, r"pub struct RustLogMacro\b", de_serde, "serde/derive attributes dropped (read by the C16 contract generator)")
     u.real_item(CTX, r"pub struct RustConfig\b", de_serde)
     u.real_item(CTX, r"pub struct Config\b", de_serde)
